@@ -14,20 +14,22 @@ namespace SpVerif.Hilbert
 
 /-! ## general n, as coded -/
 
+/-- the number whose bit `e` is `f e` for `e < k` and which has no other bit set -/
+def bitsum (k : Nat) (f : Nat → Bool) : Nat :=
+  (List.range k).foldl (fun acc e => acc + (if f e then 2 ^ e else 0)) 0
+
 /-- bit `j` (from the LSB) of word `i` of `_hilbert_integer_to_transpose(p, h, n)`:
 `h_bits[i::n]` read MSB-first is bit `n*j + (n-1-i)` of `h`. -/
-def transposeWord (p n i h : Nat) : Nat :=
-  (List.range p).foldl (fun acc j => acc + (if h.testBit (n * j + (n - 1 - i)) then 2 ^ j else 0)) 0
+def transposeWord (p n i h : Nat) : Nat := bitsum p (fun j => h.testBit (n * j + (n - 1 - i)))
 
 def toTranspose (p n h : Nat) : List Nat :=
   (List.range n).map (fun i => transposeWord p n i h)
 
-/-- `_transpose_to_hilbert_integer(p, X)`: `concat[n*i + j] = bins[j][i]` (MSB first). -/
+/-- `_transpose_to_hilbert_integer(p, X)`: the bit string `concat[n*i + j] = bins[j][i]` (MSB first) read as an integer, i.e.
+bit `e` of the result is bit `e / n` of word `n - 1 - e % n`. -/
 def fromTranspose (p : Nat) (X : List Nat) : Nat :=
   let n := X.length
-  (List.range p).foldl (fun acc b =>
-    (List.range n).foldl (fun acc j =>
-      acc + (if (X.getD j 0).testBit b then 2 ^ (n * b + (n - 1 - j)) else 0)) acc) 0
+  bitsum (n * p) (fun e => (X.getD (n - 1 - e % n) 0).testBit (e / n))
 
 /-- one `(Q = 2^q, i)` iteration of the "undo excess work" loops (identical in both routines) -/
 def step (q i : Nat) (X : List Nat) : List Nat :=
